@@ -1395,6 +1395,28 @@ func (a *Adversary) splicedProof(h, v uint64, blk *spi.Blk) *ref.Proof {
 func (a *Adversary) otherInstanceProof(h, pv uint64, blk *spi.Blk) *ref.Proof {
 	c := a.w.Comm(h)
 	oi := a.otherInst()
+	if a.w.Cfg.Byz[c.Leader(pv)] && a.r.Intn(2) == 0 {
+		// mixed: the PREPREPARE half is of THIS instance (signed by the Byzantine leader of that view), only the PREPARE half —
+		// what the members genuinely signed for the same (height, view, hash) — comes from the parallel instance
+		leader := c.Leader(pv)
+		pp := &ref.Ref{Type: ref.PP, Inst: uint64(spi.InstanceId), H: h, V: pv, Hash: spi.HashOf(blk)}
+		pr := &ref.Ref{Type: ref.P, Inst: oi, H: h, V: pv, Hash: spi.HashOf(blk)}
+		p := &ref.Proof{PPRef: pp, PRef: pr, PPSender: &ref.Sig{Id: leader, Sig: a.sign(leader, h, pp.Bytes())}}
+		ids := []string{leader}
+		for _, m := range c.Members {
+			id := string(m.Id)
+			if id == leader {
+				continue
+			}
+			p.PSenders = append(p.PSenders, ref.Sig{Id: id, Sig: a.signOther(id, h, pr.Bytes())})
+			ids = append(ids, id)
+			if c.IsQuorum(ids) {
+				break
+			}
+		}
+		a.w.Mon.Stats["adv proofs with the PREPARE half of the parallel instance"]++
+		return p
+	}
 	pp := &ref.Ref{Type: ref.PP, Inst: oi, H: h, V: pv, Hash: spi.HashOf(blk)}
 	pr := &ref.Ref{Type: ref.P, Inst: oi, H: h, V: pv, Hash: spi.HashOf(blk)}
 	leader := c.Leader(pv)
